@@ -508,6 +508,12 @@ func (m *Machine) Apply(a *Action) (Outcome, error) {
 		return m.updateParams(a)
 	case "rawCall":
 		return m.rawCall(a)
+	case "govSubmit":
+		return m.govSubmit(a)
+	case "govDeposit":
+		return m.govDeposit(a)
+	case "govVote":
+		return m.govVote(a)
 	}
 	if strings.HasPrefix(a.Kind, "avs") {
 		return m.applyAvs(a)
